@@ -305,7 +305,8 @@ Proof.
                    (r1 = RsNotImplemented) \/ (r1 = RsFuel) \/ (r1 = RsResolveErr /\ pass = false /\ e1 = [])).
   { unfold resolver_step in Hstep. rewrite Hs in Hstep. cbv zeta in Hstep.
     destruct (pass && (bnum b <=? rn (cu_lib c))) eqn:Hp.
-    { inversion Hstep; subst. right. left. split; [reflexivity|]. split; [exact Hs|].
+    { inversion Hstep; subst. cbn [r_resolved]. destruct (bid b =? ri (cu_blk c)); [left; auto|].
+      right. left. split; [reflexivity|]. split; [reflexivity|].
       intros ->. discriminate. }
     destruct (bnum b <? rn (cu_blk c)).
     { inversion Hstep; subst. right. left. auto. }
